@@ -41,6 +41,7 @@ ASSUMPTIONS = ["memo caches start empty; history = build -> read block duration 
 REQUIRED_REACH = ['C06.count', 'C06.untouched', 'C06.reset', 'C06.idempotent.listing', 'C06.idempotent.schedule', 'C06.chain', 'C06.nT', 'C06.library.concat', 'C06.count.after_extension']
 EXHAUSTIVE = {'quick': False, 'thorough': False}
 JOB_OPTS = {'quick': dict(max_paths=6000, max_seconds=500), 'thorough': dict(max_paths=40000, max_seconds=1500)}
+TRUNCATION_OK = {'quick': 4, 'thorough': 20}   # sampled tier: this many random jobs may exhaust their path/time budget (listed as truncated in the evidence)
 
 W_OUT = [['W', 0, 'ALL'], ['W', 1, 'ALL']]
 W_IN = [['W', 0, 'ALL'], ['W', 1, 'ALL'], ['W', 0, 'MW']]
